@@ -47,3 +47,29 @@ package staticfiles
 //@   loop 3 invariant d == statOf(f)
 //@   loop 4 invariant d == statOf(f) && !fs.IsHidden(d) && !d.IsDir()
 //@   loop 5 invariant d == statOf(f) && !fs.IsHidden(d) && !d.IsDir() && !accepted
+
+//@ unit is_hidden frames=on props=C02 filter=`staticfiles\.FileServer\)\.IsHidden$`
+//@ // A file is hidden exactly when it is the same file as what is AT one of the hide-list paths NOW: every call looks each
+//@ // path up in the file system again (ghost clock `opens`; fileAt/openOK are what Open returns at that moment), so a hidden
+//@ // file that was replaced on disk (new inode) stays hidden. A remembered FileInfo cannot satisfy this.
+//@ ghost opens int
+//@ spec statOf(f http.File) os.FileInfo
+//@ spec fileAt(root http.FileSystem, name string, t int) http.File
+//@ spec openOK(root http.FileSystem, name string, t int) bool
+//@ extern invoke:(net/http.FileSystem).Open
+//@   modifies ghost:opens
+//@   ensures opens == old(opens) + 1
+//@   ensures (result1 == nil) == openOK(self, name, old(opens))
+//@   ensures result1 == nil ==> result0 == fileAt(self, name, old(opens))
+//@ extern invoke:(net/http.File).Stat
+//@   ensures result0 == statOf(self)
+//@ extern os.SameFile
+//@   pure
+//@ define hides(k int) bool = openOK(old(fs.Root), old(fs.Hide)[k], old(opens) + k) && os.SameFile(d, statOf(fileAt(old(fs.Root), old(fs.Hide)[k], old(opens) + k)))
+//@ func (FileServer).IsHidden
+//@   requires fs.Root != nil
+//@   modifies ghost:opens
+//@   ensures [hidden_iff_same_as_file_now_at_a_hidden_path] result == exists(k, 0, len(fs.Hide), hides(k) && forall(j, 0, k, !hides(j)))
+//@   ensures [every_hidden_path_looked_up_now] !result ==> opens == old(opens) + len(fs.Hide)
+//@   loop 1 invariant 0 <= #i && #i <= len(old(fs.Hide)) && opens == old(opens) + #i
+//@   loop 1 invariant forall(k, 0, #i, !hides(k))
